@@ -145,6 +145,12 @@ def op_text(op):
         return "flink %s %d" % (hx(op[1]), op[2])
     if k == "lookalike":
         return "flink %s 1" % hx(op[1])           # for the model: a link to a live file that is not a cache object
+    if k == "wlink":
+        return "flink %s 1" % hx(op[1])           # a link to another (existing) workspace file: for the model a live foreign link
+    if k == "lexlink":
+        return "flink %s 0" % hx(op[1])           # a link whose TEXT cleans to the cache object but which resolves elsewhere (dangling)
+    if k == "append":
+        return "write %s %s" % (hx(op[1]), op[2])  # in-place append to a regular file: for the model a write of the longer content
     if k == "movecache":
         return "movecache"
     if k == "rmcachedir":
@@ -303,13 +309,18 @@ ROOT_WARNING = re.compile(rb"WARNING: Running as root.*?\n\n", re.S)
 class Project:
     """A real dud project in scratch space."""
 
-    def __init__(self, dud, base, cache_mode="rel", cwd_sub=b"", remote=True, env_extra=None, odd=False):
+    def __init__(self, dud, base, cache_mode="rel", cwd_sub=b"", remote=True, env_extra=None, odd=False, via_symlink=False):
         self.dud_bin = dud
         self.timeout = 120
         self.base = base                                   # private scratch dir of this case
         # `odd`: the absolute paths of project and cache contain ':' and blanks (a run directory named after a timestamp)
-        self.root = os.path.join(base, "run 2024-05-17T12:30" if odd else "outer", "proj")    # surrounded by a sentinel tree
+        outer = "run 2024-05-17T12:30" if odd else "outer"
+        self.root = os.path.join(base, outer, "proj")    # surrounded by a sentinel tree
         os.makedirs(self.root)
+        if via_symlink:
+            # the project is reached through a symbolic link above its root (as a shell that `cd`s through a link leaves $PWD)
+            os.symlink(outer, os.path.join(base, "lnk"))
+            self.root = os.path.join(base, "lnk", "proj")
         self.xdg = os.path.join(base, "xdg")
         os.makedirs(self.xdg)
         self.home = os.path.join(base, "home")
@@ -326,7 +337,7 @@ class Project:
         if env_extra:
             self.env.update(env_extra)
         self.cache_mode = cache_mode
-        if cache_mode == "rel":
+        if cache_mode in ("rel", "sym"):
             self.cache = os.path.join(self.root, ".dud", "cache")
             cache_cfg = None
         elif cache_mode == "abs":
@@ -341,6 +352,13 @@ class Project:
         rc, so, se = self.dud(["init"], cwd=self.root)
         if rc != 0:
             raise RuntimeError("dud init failed: %r" % se)
+        if cache_mode == "sym":
+            # the default cache location is a symbolic link to a directory elsewhere (a cache kept on a bigger disk)
+            target = os.path.join(base, "cache-on-big-disk")
+            os.makedirs(target)
+            if os.path.isdir(self.cache) and not os.path.islink(self.cache):
+                os.rmdir(self.cache)
+            os.symlink(target, self.cache)
         with open(os.path.join(self.root, ".dud", "config.yaml"), "a") as f:
             if cache_cfg:
                 f.write("cache: %s\n" % json.dumps(cache_cfg))
@@ -372,7 +390,7 @@ class Project:
         os.makedirs(new_outer)
         new_root = os.path.join(new_outer, "proj")
         os.rename(self.root, new_root)
-        if self.cache_mode == "rel":
+        if self.cache_mode in ("rel", "sym"):
             self.cache = os.path.join(new_root, ".dud", "cache")
         self.root = new_root
         self.cwd = os.path.join(os.fsencode(self.root), self.cwd_sub) if self.cwd_sub else os.fsencode(self.root)
@@ -384,7 +402,10 @@ class Project:
 
     def dud(self, args, cwd=None, timeout=None):
         timeout = timeout or self.timeout
-        p = subprocess.run([self.dud_bin] + args, cwd=cwd or self.cwd, env=self.env, stdout=subprocess.PIPE,
+        wd = cwd or self.cwd
+        # $PWD as a shell would set it (Go's os.Getwd trusts it when it names the current directory)
+        env = dict(self.env, PWD=os.fsdecode(wd))
+        p = subprocess.run([self.dud_bin] + args, cwd=wd, env=env, stdout=subprocess.PIPE,
                            stderr=subprocess.PIPE, stdin=subprocess.DEVNULL, timeout=timeout)
         return p.returncode, ROOT_WARNING.sub(b"", p.stdout), p.stderr
 
@@ -517,12 +538,8 @@ class Project:
                     lines.append("w %s d" % hx(rel))        # a mount point: part of the workspace
                     walk(full)
                 elif stat.S_ISLNK(st.st_mode):
-                    tgt = os.readlink(full)
-                    res = os.path.normpath(os.path.join(os.path.dirname(full), tgt))
-                    try:
-                        res_real = os.path.join(os.path.realpath(os.path.dirname(res)), os.path.basename(res))
-                    except OSError:
-                        res_real = res
+                    # physical resolution, component by component (`dir-link/..` is NOT the lexical parent)
+                    res_real = os.path.realpath(full)
                     if res_real.startswith(cacheb + b"/"):
                         parts = os.path.relpath(res_real, cacheb).split(b"/")
                         if len(parts) == 2:
@@ -815,15 +832,54 @@ def apply_op(proj, op, mstep, b3):
             proj.remove(op[1])
             os.makedirs(os.path.dirname(full), exist_ok=True)
             os.symlink(fake, full)
+        elif k == "wlink":
+            full = proj.abspath(op[1])
+            tgt = os.path.relpath(proj.abspath(op[2]), os.path.dirname(full))
+            proj.remove(op[1])
+            os.makedirs(os.path.dirname(full), exist_ok=True)
+            os.symlink(tgt, full)
+        elif k == "lexlink":
+            # target text: <up to base>/lexmnt/../<base-relative path of the cache object>, where base/lexmnt is a symlink to a
+            # directory two levels down: lexically the text names the cache object, physically it names nothing
+            full = proj.abspath(op[1])
+            base_b = os.fsencode(proj.base)
+            obj = None
+            if os.path.islink(full):
+                obj = os.path.realpath(full)
+            proj.remove(op[1])
+            os.makedirs(os.path.dirname(full), exist_ok=True)
+            real_dir = os.path.dirname(os.path.realpath(os.path.dirname(full)) + b"/x")
+            if obj is None or not obj.startswith(os.path.realpath(base_b) + b"/"):
+                os.symlink(b"/nonexistent/verif-dangling", full)
+            else:
+                mnt = os.path.join(base_b, b"lexmnt")
+                if not os.path.lexists(mnt):
+                    os.makedirs(os.path.join(base_b, b"lexreal", b"sub"))
+                    os.symlink(b"lexreal/sub", mnt)
+                rb = os.path.realpath(base_b)
+                text = os.path.join(os.path.relpath(rb, real_dir), b"lexmnt", b"..", os.path.relpath(obj, rb))
+                os.symlink(text, full)
+        elif k == "append":
+            full = proj.abspath(op[1])
+            new = content_bytes(op[2])
+            if os.path.isfile(full) and not os.path.islink(full) and new.startswith(open(full, "rb").read()):
+                old_len = os.path.getsize(full)
+                with open(full, "ab") as f:        # in place: same inode, as an editor or `>>` would
+                    f.write(new[old_len:])
+            else:
+                proj.put("file", op[1], op[2])
         elif k == "rmcachedir":
             # as in a fresh clone: the (empty) cache directory does not exist
             if os.path.isdir(proj.cache) and not any(os.path.isdir(os.path.join(proj.cache, x)) for x in os.listdir(proj.cache)):
-                shutil.rmtree(proj.cache)
+                if os.path.islink(proj.cache):
+                    os.unlink(proj.cache)
+                else:
+                    shutil.rmtree(proj.cache)
         elif k == "movecache":
             new = os.path.join(proj.base, "relocated-cache-%d" % (len(proj.harness_removed) + 1))
             os.rename(proj.cache, new)
             proj.cache = new
-            proj.cache_mode = "abs" if proj.cache_mode == "rel" else proj.cache_mode
+            proj.cache_mode = "abs" if proj.cache_mode in ("rel", "sym") else proj.cache_mode
             cfg = os.path.join(proj.root, ".dud", "config.yaml")
             lines = [l for l in open(cfg).read().splitlines() if not l.startswith("cache:")]
             open(cfg, "w").write("\n".join(lines) + "\ncache: %s\n" % new)
@@ -919,7 +975,7 @@ def run_case(args):
     out = dict(id=case["id"], steps=[], diffs=[], error=None, case=case)
     try:
         proj = Project(dud, base, odd=bool(case.get("oddpath")), cache_mode=case.get("cache", "rel"), cwd_sub=case.get("cwd", b""),
-                       remote=True, env_extra=case.get("env"))
+                       remote=True, env_extra=case.get("env"), via_symlink=bool(case.get("via_symlink")))
         proj.timeout = case.get("timeout", 120)
         for k, p, *rest in case["init"]:
             proj.put(k, p, rest[0] if rest else None)
